@@ -67,7 +67,8 @@ def cache_root():
 
 
 def _prune():
-    """Keep at most two tree hashes; never remove one touched in the last 40 min."""
+    """Keep at most three tree hashes; never remove one touched in the last 6 hours
+    (a long thorough run may still be launching harness processes from it)."""
     try:
         ds = [os.path.join(SCRATCH, d) for d in os.listdir(SCRATCH) if d.startswith("bxverif.")]
     except OSError:
@@ -75,8 +76,8 @@ def _prune():
     ds = [d for d in ds if os.path.isdir(d) and d != cache_root()]
     ds.sort(key=lambda d: os.path.getmtime(d), reverse=True)
     now = time.time()
-    for d in ds[1:]:
-        if now - os.path.getmtime(d) > 2400:
+    for d in ds[2:]:
+        if now - os.path.getmtime(d) > 6 * 3600:
             shutil.rmtree(d, ignore_errors=True)
 
 
